@@ -96,7 +96,20 @@ class Host(object):
 # and attribute names, associations with the same numbers and phrases, functions, an external entity with the same key
 # letters and bridges, operations -- with every declared type replaced according to TWIN_RETYPE.  Names in an action are
 # resolved from the component that defines the action, so the twins must never show in its population.
-HOST_VARIANTS = (None, 'components')
+#
+# 'refchain': the default host plus a referential attribute two references deep.  Class B gets a second identifier {A_Id} (A_Id
+# is itself referential: it refers to A.Id across R1); class A gets the attribute B_A_Id that refers to B.A_Id across R4 (B one,
+# identified by its second identifier -- many A), with the O_REF / O_RTIDA / O_OIDA instances every BridgePoint model holds for a
+# referential attribute.  Its base attribute (R113) is A.Id, so a read of B_A_Id has the declared type of A.Id.
+HOST_VARIANTS = (None, 'components', 'refchain')
+# attributes a host variant adds to the static description: variant -> class -> [(name, type, kind)]
+VARIANT_ATTRS = {'refchain': {'A': [('B_A_Id', 'unique_id', 'ref')]}}
+
+
+def class_attrs(kl, variant=None):
+    '''Ordered attributes (name, declared type, kind) of the class in the host of the given variant.'''
+    return CLASSES[kl] + VARIANT_ATTRS.get(variant, {}).get(kl, [])
+
 TWIN_RETYPE = {'integer': 'string', 'string': 'boolean', 'boolean': 'real', 'real': 'integer', 'Color': 'Mode'}
 
 
@@ -202,7 +215,7 @@ def build_host(m, variant=None):
                     host.types[s_dt.Name] = s_dt
         for kl in sorted(CLASSES):
             prev = None
-            for name, ty, kind in CLASSES[kl]:
+            for name, ty, kind in class_attrs(kl, variant):
                 o_attr = m.new('O_ATTR', Name=name, Root_Nam=name)
                 rel(o_attr, objs[kl], 102)
                 rel(o_attr, dt('same_as<Base_Attribute>' if kind == 'ref' else retype(ty)), 114)
@@ -271,6 +284,34 @@ def build_host(m, variant=None):
         rel(o_ref, r_rgo, 111)
         rel(o_ref, o_rtida, 111)
         rel(o_ref, o_rattr, 108)
+
+        if variant == 'refchain':
+            # B's second identifier {A_Id}; R4: B (participant, identified by it) 1 -- * A (formaliser): A.B_A_Id refers to
+            # B.A_Id, which itself refers to A.Id
+            o_oida2 = m.new('O_OIDA', localAttributeName='A_Id')
+            rel(o_oida2, oids['B', 1], 105)
+            rel(o_oida2, attrs['B', 'A_Id'], 105)
+            r4 = r_rel(4)
+            r_simp4 = m.new('R_SIMP')
+            rel(r_simp4, r4, 206)
+            r_rto4 = m.new('R_RTO')
+            rel(r_rto4, oir(r4, 'B'), 203)
+            rel(r_rto4, oids['B', 1], 109)
+            r_part4 = m.new('R_PART', Mult=0, Cond=0, Txt_Phrs='heads')
+            rel(r_part4, r_rto4, 204)
+            rel(r_part4, r_simp4, 207)
+            r_rgo4, r_form4 = rgo(r4, 'A', 'R_FORM', Mult=1, Cond=1, Txt_Phrs='follows')
+            rel(r_form4, r_simp4, 208)
+            o_rattr2 = m.new('O_RATTR', Ref_Mode=0, BaseAttrName='Id')
+            rel(o_rattr2, attrs['A', 'B_A_Id'], 106)
+            rel(o_rattr2, xtuml.navigate_one(attrs['A', 'Id']).O_BATTR[106](), 113)
+            o_rtida2 = m.new('O_RTIDA')
+            rel(o_rtida2, r_rto4, 110)
+            rel(o_rtida2, o_oida2, 110)
+            o_ref2 = m.new('O_REF', Is_Cstrd=False, RObj_Name='B', RAttr_Name='A_Id')
+            rel(o_ref2, r_rgo4, 111)
+            rel(o_ref2, o_rtida2, 111)
+            rel(o_ref2, o_rattr2, 108)
 
         # R2: reflexive on A with the phrases 'next' / 'prev'
         r2 = r_rel(2)
@@ -350,7 +391,7 @@ def build_host(m, variant=None):
                 host.homes['operation'] = o_tfr
 
 
-    if variant is None:
+    if variant in (None, 'refchain'):
         component(True, lambda t: t)
     else:
         s_sys = m.new('S_SYS', Name='host')
@@ -441,9 +482,10 @@ class Scope(object):
 
 
 class Analysis(object):
-    def __init__(self, printed, home):
+    def __init__(self, printed, home, variant=None):
         self.p = printed
         self.home = home
+        self.variant = variant      # host variant: decides which attributes the classes have
         self.vars = []
         self.blocks = []            # every BlockNode, outermost first
         self.features = set()
@@ -509,7 +551,7 @@ class Analysis(object):
             k = class_of(th)
             if h['cls'] not in ('VariableAccessNode', 'SelfAccessNode') or not k or k[1]:
                 raise IllFormed('attribute written through something else than an instance handle')
-            attr = [a for a in CLASSES[k[0]] if a[0] == self.f(l, 'name')]
+            attr = [a for a in class_attrs(k[0], self.variant) if a[0] == self.f(l, 'name')]
             if not attr:
                 raise IllFormed('unknown attribute')
             ok = attr[0][2] == 'base' and attr[0][0] != 'Id' or \
@@ -800,7 +842,7 @@ class Analysis(object):
         k = class_of(self.expr(h, scope))
         if not k or k[1]:
             raise IllFormed('attribute of something else than an instance')
-        attr = [a for a in CLASSES[k[0]] if a[0] == self.f(e, 'name')]
+        attr = [a for a in class_attrs(k[0], self.variant) if a[0] == self.f(e, 'name')]
         if not attr:
             raise IllFormed('unknown attribute')
         e['claim'] = 'attribute'
@@ -1005,16 +1047,16 @@ PRELUDE = {
 }
 
 
-def complete(stmts, home, paren='minimal'):
+def complete(stmts, home, paren='minimal', variant=None):
     '''(full program, printed, analysis) with the needed prelude prepended, or None when the program is not
-    well-formed in this home.'''
+    well-formed in this home (of the host of the given variant).'''
     from mc.refs import oalast
     need = []
     for _ in range(len(PRELUDE_ORDER) + 1):
         full = [PRELUDE[n] for n in PRELUDE_ORDER if n in need] + list(stmts)
         printed = oalast.print_program(full, paren)
         try:
-            return full, printed, Analysis(printed, home)
+            return full, printed, Analysis(printed, home, variant)
         except IllFormed as ex:
             if ex.name in PRELUDE and ex.name not in need:
                 need.append(ex.name)
@@ -1297,7 +1339,7 @@ def c05_first(sub, host, task):
     '''Child 1: translate the original text; compare the regenerated text's tree with the program.'''
     from bridgepoint import oal
     from mc.refs import oalast
-    full, printed, an = complete(task['stmts'], task['home'])
+    full, printed, an = complete(task['stmts'], task['home'], variant=task.get('host'))
     text, spans = oalast.assemble(printed, layout_of(printed, task.get('layout')))
     case = case_of(task)
     sub.count('translations')
@@ -1350,7 +1392,7 @@ def c05_second(sub, host, task, gen):
 
 def c05_run(ctx, task):
     '''One (program, home) state of C05.'''
-    r = complete(task['stmts'], task['home'])
+    r = complete(task['stmts'], task['home'], variant=task.get('host'))
     if r is None:
         raise ValueError('task is not well-formed: %r' % (task,))
     an = r[2]
@@ -1738,7 +1780,20 @@ def family_statements(tier):
     add(('call', None, ('fcall', 'h', [('x', ('ncall', 'EE', 'b', [('p', I(1)), ('q', STR)]))])))
     add(('call', None, ('ncall', 'EE', 'b', [('p', ('icall', V('a'), 'op', [('q', I(1)), ('r', TRUE)])), ('q', F('a', 'Name'))])))
     add(('call', None, ('icall', V('a'), 'op', [('q', ('param', '$0')), ('r', UN('not', V('t')))])))
+    # -- string literals are content: any character but '"' and the line feed, none of them an escape ------------------------
+    for lit in STRING_LITERALS:
+        e = ('str', lit)
+        add(ASSIGN('x', e))
+        add(('assign', F('a', 'Name'), BIN('+', e, V('s')), False))
+        add(('selfrom', 'many', 'n', 'A', BIN('==', F(SEL, 'Name'), e), True), ('return', BIN('!=', V('s'), e)))
+        add(('call', None, ('ncall', 'EE', 'b', [('p', I(1)), ('q', e)])), ('return', e))
     return S
+
+
+# backslashes (also last, and in front of what would be an escape elsewhere), control characters (tab, other C0 / C1 ones, a lone
+# carriage return), characters outside ASCII (Latin-1, BMP, the line / paragraph separators, beyond the BMP), format directives
+STRING_LITERALS = ['C:\\users\\x1\\', '\\n \\t \\u0041 \\x41 \\\\ %s %(a)s {0} {}', 'tab\there \x01\x1f\x7f\x85',
+                   'caf\u00e9 \u4e2d\u6587 \u2028\u2029 \U0001f600', 'cr\rlf']
 
 
 def family_expressions(tier):
@@ -2525,7 +2580,7 @@ def c06_child(sub, host, task):
     '''Child: (history, then) translate, then check the population.'''
     import bridgepoint
     from mc.refs import oalast
-    full, printed, an = complete(task['stmts'], task['home'])
+    full, printed, an = complete(task['stmts'], task['home'], variant=task.get('host'))
     text, spans = oalast.assemble(printed, layout_of(printed, task.get('layout')))
     case = case_of(task)
     if task.get('history'):
@@ -2574,7 +2629,7 @@ def c06_child(sub, host, task):
 
 def c06_run(ctx, task):
     '''One (program, home) state of C06 under each of its layouts.'''
-    r = complete(task['stmts'], task['home'])
+    r = complete(task['stmts'], task['home'], variant=task.get('host'))
     if r is None:
         raise ValueError('task is not well-formed: %r' % (task,))
     ok = True
